@@ -382,6 +382,74 @@ pub fn run(rep: &mut Rep) {
     rep.note(&format!("connect/authorize: all 22 CONNACK reasons x property sets, AUTH challenge, EOF / read error after every prefix of the response, write error; run(): all 28 server DISCONNECT reasons x 3 forms x properties x 5 session states; causes {{user DISCONNECT, EOF, read error, write error, undecodable input, all handles dropped}} x 5 states x with/without requests queued behind the cause; exhaustive paths of <= {depth} actions with the cause injected at every point and the context optionally held so that requests queue behind it"));
     let seed = rep.seed;
     explore_world(rep, "exh", depth, &move || World::boot(WorldCfg { seed, ..Default::default() }), &a);
+    // (c2) a request refused locally is not a terminating cause: with a Maximum Packet Size announced, an oversized
+    //      DISCONNECT (reason string / user properties) or publish is refused and run() keeps serving
+    rep.note("refused requests: CONNACK with Maximum Packet Size 3 / 8 / 16 / 40, the user's DISCONNECT with a reason string or user properties (or a publish / subscribe) exceeding it is refused with MaximumPacketSizeExceeded: run() stays pending, a ping completes, and a fitting DISCONNECT then ends run() with Ok(())");
+    let mut ridx = 55_000_000u64;
+    for m in [3u32, 8, 16, 40] {
+        for what in 0..4u8 {
+            let id = format!("refused:{m}:{what}");
+            ridx += 1;
+            if !rep.take(ridx, &id) {
+                continue;
+            }
+            let mut sim = crate::sim::Sim::new(rep.seed);
+            sim.cmd(crate::sim::Cmd::Connect(crate::spec::ConnSpec::default()));
+            sim.settle();
+            sim.feed_packet(&crate::refcodec::SPacket::Connack { session_present: false, reason: 0, props: vec![crate::refcodec::Prop::u32(39, m)] });
+            sim.settle();
+            sim.cmd(crate::sim::Cmd::Run);
+            sim.settle();
+            let spec = match what {
+                0 => crate::spec::OpSpec::Disconnect(crate::spec::DiscSpec { reason: Some(0x04), sei: None, reason_string: Some("going down for maintenance, back soon".into()), user_props: vec![] }),
+                1 => crate::spec::OpSpec::Disconnect(crate::spec::DiscSpec { reason: None, sei: Some(7), reason_string: None, user_props: vec![("key".into(), "v".repeat(40))] }),
+                2 => crate::spec::OpSpec::Publish(crate::spec::PubSpec::simple(0, "topic/long/enough", &[7u8; 60])),
+                _ => crate::spec::OpSpec::Subscribe(crate::spec::SubSpec::simple("a/rather/long/topic/filter/exceeding/the/limit")),
+            };
+            let w0 = sim.written_len();
+            let op = sim.start_op(0, spec);
+            sim.settle();
+            rep.add("evaluations", 1);
+            rep.add("refused_request_cases", 1);
+            rep.distinct(&("refused", m, what));
+            let refused = matches!(sim.ops[op].out.as_ref().and_then(|o| o.err()), Some(crate::spec::ErrSum::MaximumPacketSizeExceeded));
+            let mut bad = false;
+            for p in sim.panics.clone() {
+                rep.violation(&format!("C13/panic/{p}"), &id, &format!("{p}\n{}", sim.tail_log(20)));
+                bad = true;
+            }
+            if refused && sim.written_len() == w0 {
+                if let Some(r) = sim.run_result() {
+                    rep.violation(&format!("C13/run-returned-without-cause/refused-request/{}", match &r { Ok(()) => "Ok".to_string(), Err(e) => e.kind().to_string() }), &id, &format!("a request refused with MaximumPacketSizeExceeded (nothing written) made run() return {:?}\n{}", r, sim.tail_log(20)));
+                    bad = true;
+                } else {
+                    // still serving: a ping round trip (if a PINGREQ fits), then the real DISCONNECT (if it fits)
+                    if m >= 2 {
+                        let p = sim.start_op(0, crate::spec::OpSpec::Ping);
+                        sim.settle();
+                        sim.feed_packet(&crate::refcodec::SPacket::Pingresp);
+                        sim.settle();
+                        if !sim.ops[p].out.as_ref().map(|o| o.is_ok()).unwrap_or(false) || sim.run_result().is_some() {
+                            rep.violation("C13/not-serving-after-refused-request", &id, &format!("ping after the refused request: {:?}, run() = {:?}\n{}", sim.ops[p].out.as_ref().map(|o| o.brief()), sim.run_result(), sim.tail_log(20)));
+                            bad = true;
+                        }
+                    }
+                    if m >= 4 && !bad {
+                        let d = sim.start_op(0, crate::spec::OpSpec::Disconnect(crate::spec::DiscSpec::default()));
+                        sim.settle();
+                        if sim.run_result() != Some(Ok(())) || !sim.ops[d].out.as_ref().map(|o| o.is_ok()).unwrap_or(false) {
+                            rep.violation("C13/run-wrong-result/cause=user_disconnect/after-refused-request", &id, &format!("fitting DISCONNECT after a refused one: disconnect() = {:?}, run() = {:?}\n{}", sim.ops[d].out.as_ref().map(|o| o.brief()), sim.run_result(), sim.tail_log(20)));
+                            bad = true;
+                        }
+                    }
+                }
+                rep.add("terminations_checked", 1);
+            }
+            if !bad {
+                rep.sample(|| format!("{id}: refused = {refused}, run() kept serving"));
+            }
+        }
+    }
     // (d) the same Context on a second (and third) connection: every way the first one ended x every way of connecting
     // again: run() must keep serving until a cause occurs on *that* connection, and then report that cause
     let causes = [
